@@ -52,6 +52,8 @@ func init() {
 		type site struct{ file, fn, kind, expr string }
 		var sites []site
 		typeSet := map[[2]string]bool{}
+		typeCount := map[[2]string]int{}
+		shapeSet := map[[3]string]bool{}
 		for _, p := range pkgs {
 			if len(p.Errors) > 0 {
 				return "", fmt.Errorf("package %s: %v", p.PkgPath, p.Errors[0])
@@ -114,6 +116,7 @@ func init() {
 				add := func(kind, typ string, e ast.Expr) {
 					sites = append(sites, site{rel, curFn, kind, types.ExprString(e)})
 					typeSet[[2]string{pkgRel, typ}] = true
+					typeCount[[2]string{pkgRel, typ}]++
 				}
 				ast.Inspect(f, func(n ast.Node) bool {
 					switch x := n.(type) {
@@ -125,6 +128,11 @@ func init() {
 					case *ast.RangeStmt:
 						if ts, ok := mapType(p.TypesInfo.TypeOf(x.X)); ok {
 							add("range", ts, x.X)
+							for _, fl := range strings.Split(c17LoopShape(p.TypesInfo, x), "+") {
+								if c17LeakFlags[fl] {
+									shapeSet[[3]string{pkgRel, ts, fl}] = true
+								}
+							}
 						}
 					case *ast.CallExpr:
 						pp, recv, name := calleeOf(x)
@@ -138,10 +146,13 @@ func init() {
 								ts = "maps." + name + "(?)"
 							}
 							add("maps."+name, ts, x.Args[0])
+							shapeSet[[3]string{pkgRel, ts, "maps." + name}] = true
 						case pp == "reflect" && recv == "Value" && (name == "MapKeys" || name == "MapRange" || name == "Seq" || name == "Seq2"):
 							add("reflect."+name, "reflect.Value", x.Fun)
+							shapeSet[[3]string{pkgRel, "reflect.Value", "reflect." + name}] = true
 						case pp == "sync" && recv == "Map" && name == "Range":
 							add("sync.Map.Range", "sync.Map", x.Fun)
+							shapeSet[[3]string{pkgRel, "sync.Map", "sync.Map.Range"}] = true
 						}
 					}
 					return true
@@ -181,6 +192,34 @@ func init() {
 			fmt.Fprintf(&b, "  (%s, %s)", leanStr(t[0]), leanStr(t[1]))
 		}
 		b.WriteString("]\n")
+		b.WriteString("/-- number of enumeration sites per (package, underlying map type) -/\ndef mapIterCounts : List ((String × String) × Nat) := [\n")
+		for i, t := range tys {
+			if i > 0 {
+				b.WriteString(",\n")
+			}
+			fmt.Fprintf(&b, "  ((%s, %s), %d)", leanStr(t[0]), leanStr(t[1]), typeCount[t])
+		}
+		b.WriteString("]\n")
+		var shapes [][3]string
+		for k := range shapeSet {
+			shapes = append(shapes, k)
+		}
+		sort.Slice(shapes, func(i, j int) bool {
+			for k := 0; k < 3; k++ {
+				if shapes[i][k] != shapes[j][k] {
+					return shapes[i][k] < shapes[j][k]
+				}
+			}
+			return false
+		})
+		b.WriteString("/-- (package, underlying map type, flag): a way in which the enumeration order of some `range` over that map type\ncan leave the loop (ret-elem, break, append, set-outer, call, closure; maps.Keys etc. by name) —\nsee c17LoopShape in harness/gen_mapranges.go -/\ndef mapIterShapes : List (String × String × String) := [\n")
+		for i, t := range shapes {
+			if i > 0 {
+				b.WriteString(",\n")
+			}
+			fmt.Fprintf(&b, "  (%s, %s, %s)", leanStr(t[0]), leanStr(t[1]), leanStr(t[2]))
+		}
+		b.WriteString("]\n")
 		b.WriteString("/-- for information only (never compared): (file, function, kind, expression) of every such site -/\ndef mapIterSites : List (String × String × String × String) := [\n")
 		for i, s := range sites {
 			if i > 0 {
@@ -191,4 +230,142 @@ func init() {
 		b.WriteString("]\nend Avo.Gen\n")
 		return b.String(), nil
 	}
+}
+
+// c17LoopShape describes, syntactically, the ways in which the order of a `range` over a map can leave the loop —
+// a '+'-joined, sorted set of flags:
+//
+//	ret-elem    a return inside the loop whose results mention something declared in the loop (key, value, body
+//	            locals): first-match search — the answer is the first element that qualifies
+//	ret-const   a return inside the loop whose results mention nothing declared in the loop (all-or-nothing tests)
+//	break       a break / goto / labelled continue leaving the loop early
+//	append      append inside the loop (the order of the slice is the order of the map unless it is sorted after)
+//	set-outer   plain assignment (=) to a variable declared outside the loop (last-writer-wins / running minimum)
+//	acc-outer   op-assignment (|=, +=, …) or ++/-- on a variable declared outside the loop
+//	set-outer   … also a plain assignment to a field, through a pointer, or to an element whose index does not
+//	            mention anything declared in the loop
+//	store       assignment to an element indexed by something declared in the loop, op-assignment through an
+//	            index / selector / pointer (commute with the other iterations)
+//	call        a call used as a statement (or deferred / go), whose effects may depend on the order
+//	closure     a function literal in the body (not analysed further)
+//
+// Calls inside expressions and declarations of locals carry no flag.  A loop with none of the flags is "pure".
+// c17LeakFlags: the flags through which the enumeration order can leave a loop.  `store`, `acc-outer`, `ret-const`
+// and `pure` loops compute the same thing in every order (keyed writes, commutative accumulation, all-or-nothing
+// tests) and are not reported, so adding such a loop over a known map type changes nothing.
+var c17LeakFlags = map[string]bool{"ret-elem": true, "break": true, "append": true, "set-outer": true, "call": true, "closure": true}
+
+func c17LoopShape(info *types.Info, rs *ast.RangeStmt) string {
+	inner := func(id *ast.Ident) bool { // declared inside the loop?
+		obj := info.Uses[id]
+		if obj == nil {
+			obj = info.Defs[id]
+		}
+		return obj != nil && obj.Pos() >= rs.Pos() && obj.Pos() < rs.End()
+	}
+	mentionsInner := func(e ast.Expr) bool {
+		found := false
+		ast.Inspect(e, func(n ast.Node) bool {
+			if id, ok := n.(*ast.Ident); ok && inner(id) {
+				found = true
+			}
+			return !found
+		})
+		return found
+	}
+	flags := map[string]bool{}
+	var walk func(n ast.Node, depth int) // depth: nesting in inner for/switch/select (for unlabelled break)
+	walk = func(n ast.Node, depth int) {
+		ast.Inspect(n, func(m ast.Node) bool {
+			if m == nil || m == n {
+				return true
+			}
+			switch x := m.(type) {
+			case *ast.FuncLit:
+				flags["closure"] = true
+				return false
+			case *ast.ForStmt, *ast.RangeStmt, *ast.SwitchStmt, *ast.TypeSwitchStmt, *ast.SelectStmt:
+				walk(x, depth+1)
+				return false
+			case *ast.ReturnStmt:
+				el := false
+				for _, r := range x.Results {
+					if mentionsInner(r) {
+						el = true
+					}
+				}
+				if el {
+					flags["ret-elem"] = true
+				} else {
+					flags["ret-const"] = true
+				}
+			case *ast.BranchStmt:
+				switch {
+				case x.Tok.String() == "goto", x.Label != nil:
+					flags["break"] = true
+				case x.Tok.String() == "break" && depth == 0:
+					flags["break"] = true
+				}
+			case *ast.IncDecStmt:
+				if id, ok := ast.Unparen(x.X).(*ast.Ident); ok {
+					if !inner(id) {
+						flags["acc-outer"] = true
+					}
+				} else {
+					flags["store"] = true
+				}
+			case *ast.AssignStmt:
+				for _, l := range x.Lhs {
+					switch t := ast.Unparen(l).(type) {
+					case *ast.Ident:
+						if t.Name == "_" || inner(t) || x.Tok.String() == ":=" && info.Defs[t] != nil {
+							continue
+						}
+						if x.Tok.String() == "=" || x.Tok.String() == ":=" {
+							flags["set-outer"] = true
+						} else {
+							flags["acc-outer"] = true
+						}
+					case *ast.IndexExpr:
+						// a write keyed by something of the current element commutes with the writes of the other
+						// elements; a write to a fixed place is last-writer-wins
+						if mentionsInner(t.Index) || x.Tok.String() != "=" {
+							flags["store"] = true
+						} else {
+							flags["set-outer"] = true
+						}
+					default:
+						if x.Tok.String() == "=" {
+							flags["set-outer"] = true
+						} else {
+							flags["store"] = true
+						}
+					}
+				}
+			case *ast.ExprStmt:
+				if _, ok := x.X.(*ast.CallExpr); ok {
+					flags["call"] = true
+				}
+			case *ast.DeferStmt, *ast.GoStmt:
+				flags["call"] = true
+			case *ast.CallExpr:
+				if id, ok := ast.Unparen(x.Fun).(*ast.Ident); ok && id.Name == "append" {
+					if _, isB := info.Uses[id].(*types.Builtin); isB {
+						flags["append"] = true
+					}
+				}
+			}
+			return true
+		})
+	}
+	walk(rs.Body, 0)
+	if len(flags) == 0 {
+		return "pure"
+	}
+	var fs []string
+	for f := range flags {
+		fs = append(fs, f)
+	}
+	sort.Strings(fs)
+	return strings.Join(fs, "+")
 }
